@@ -125,4 +125,15 @@ PROPS = {
         quick=dict(shards=16, checks=600, extra=["TestStyles", "TestExhaustive"], timeout=900),
         thorough=dict(shards=16, checks=12000, extra=["TestStyles", "TestExhaustive"], timeout=3400),
     ),
+    "C12": dict(
+        pkg="c12",
+        technique="property-based testing (rapid) with a per-sample error-bound oracle computed from the QCD step sizes parsed from the emitted stream and exact L1 synthesis gains of an independent inverse 9/7 transform",
+        level_text="Exploration: seeded rapid generators over images (<= 96x96, 1/3 components, precision 8/12/16, signed or not) x irreversible single-tile configurations (levels 0-6, quality 1-100, code-blocks 16/32/64, no rate target); the bound is the statement's: sum over sub-bands of declared step x exact synthesis gain, through |inverse ICT|, plus a fixed allowance.",
+        level_note="Trusts harness/ref/dwt97 (T.800 Annex F lifting, self-tested for perfect reconstruction and nominal gains) and the independent QCD/COD walker. Closed-form gains for sizes above 96 are not implemented; sizes are capped at 96.",
+        rule=("rapid-generated (image, irreversible configuration). Non-trivial: some declared step size exceeds 1 (quantiser active) and the image is not constant. Distinct = hash of the case. "
+              "Label tightness>N% records how close the observed error came to the bound."),
+        assumptions=COMMON_ASSUME + ["the rounding allowance 2 + 2^(P-13) covers single-precision arithmetic of the transform chain"],
+        quick=dict(shards=16, checks=150, extra=[], timeout=900),
+        thorough=dict(shards=16, checks=1500, extra=[], timeout=3400),
+    ),
 }
